@@ -952,3 +952,159 @@ def check_C08(ctx):
                             "type-correct sample arguments from the built-in's declaration; only CompileProfile is called, so nothing is evaluated")
     ctx.assumptions += ["the engine's capability check (rego.UnsafeBuiltins) is a dependency: modelled at term level (C08Term), tied by the matrix", "js/validator.go (WASM entry, build-constrained) calls the same internal pipeline and is not loaded by the inventory"]
     return conclude(ctx, broken, trusted=TRUST_COMMON + ["go/packages-based inventory of engine API calls"])
+
+
+# ------------------------------------------------------------------ C07
+
+C07_THEOREMS = ["Acv.C07.letters_ok", "Acv.C07.var_names_distinct", "Acv.C07.var_not_keyword", "Acv.C07.plural_not_keyword",
+                "Acv.C07.plural_not_var", "Acv.C07.plural_format", "Acv.C07.genvar_injective", "Acv.C07.packageName_valid",
+                "Acv.C07.old_table_collides", "Acv.C02.bindings_distinct"]
+
+
+def cmp_c07(case, i, m):
+    if i.get("outcome") == "ok":
+        return None
+    return ("compile:" + case["kind"], f"well-formed declarative profile ({case['kind']}, size {case['size']}) does not compile: {i.get('outcome')}: {str(i.get('err'))[:300]}")
+
+
+def check_C07(ctx):
+    broken = []
+    try:
+        build_harness()
+        run_extract()
+    except Broken as b:
+        return conclude(ctx, [b])
+    broken += prove(ctx, "Acv.Props.C07", C07_THEOREMS)
+    try:
+        extra = () if ctx.quick() else ("full",)
+        lines = gen_cases("c07", 40 if ctx.quick() else 1500, ctx.seed * 1000 + 11, extra)
+        impl = run_impl(lines)
+        kinds = {}
+        bad = 0
+        for line, i in zip(lines, impl):
+            case = json.loads(line)
+            k = case["kind"].split(":")[0]
+            kinds[k] = kinds.get(k, 0) + 1
+            r = cmp_c07(case, i, None)
+            if r:
+                bad += 1
+                ctx.violation("C07:" + r[0] + ":" + str(i.get("err"))[:60], r[1], {"case": case, "impl": i})
+        ctx.coverage.setdefault("streams", {})["c07"] = {"cases": len(lines), "by_kind": kinds}
+        ctx.coverage["evaluations"] = len(lines)
+        ctx.coverage["distinct_nontrivial"] = len(lines)
+        ctx.samples.append({"stream": "c07", "case": {k: json.loads(lines[0])[k] for k in ("kind", "size")}, "impl": impl[0]})
+        ctx.oblige("search:scaling matrix (constraint kinds x path shapes, width, depth, number of validations, random formulas, profile names) compiles", bad == 0)
+    except Broken as b:
+        broken.append(b)
+    ctx.coverage["rule"] = ("every constraint kind (22) x 8 path shapes, plain/negated/nested; 1..40 (thorough 1..60) quantified constraints in one validation; nesting depth 1..8 (thorough ..30); 1..30 (..100) validations; "
+                            "random formulas of the full language; profile names that must sanitise into a package name; pkg.CompileProfile must succeed")
+    ctx.assumptions += ["that the engine accepts the REST of the emitted code (safety, types) is not modelled: only the names the translator invents are covered by theorems; the matrix is the search for a failing profile"]
+    return conclude(ctx, broken, trusted=TRUST_COMMON + ["extractors of the letter list, the plural format and the linked engine's keyword table"])
+
+
+# ------------------------------------------------------------------ C05
+
+C05_THEOREMS = ["Acv.C05.norm_ser", "Acv.C05.norm_ser_flat", "Acv.C05.exists_WF", "Acv.C05.reserialisation_invariant",
+                "Acv.C05.norm_reflects", "Acv.C05.equiv_iff", "Acv.C05.equiv_targets", "Acv.C05.norm_wellFormed",
+                "Acv.C05.canonIndex_wellFormed", "Acv.C05.find_get_iff", "Acv.C05.find_types_iff", "Acv.C05.reserialisation_same_reads"]
+
+
+def check_C05(ctx):
+    broken = []
+    try:
+        build_harness()
+    except Broken as b:
+        return conclude(ctx, [b])
+    broken += prove(ctx, "Acv.Props.C05", C05_THEOREMS)
+    try:
+        lines = gen_cases("c05", 60 if ctx.quick() else 1500, ctx.seed * 1000 + 21)
+        impl = run_impl(lines)
+        model = run_model(lines)
+        forms, bad, ndocs, frag = {}, 0, 0, 0
+        for line, i, m in zip(lines, impl, model):
+            case = json.loads(line)
+            if "error" in m or i.get("outcome") != "ok":
+                bad += 1
+                ctx.violation("C05:harness", f"case could not run: {m.get('error')} {i.get('outcome')}", {"case": case, "impl": i, "model": m})
+                continue
+            base = i["docs"][0]
+            for k, (d, di, dm) in enumerate(zip(case["docs"], i["docs"], m["docs"])):
+                ndocs += 1
+                forms[d["form"]] = forms.get(d["form"], 0) + 1
+                desc = None
+                if di["outcome"] != "ok":
+                    desc = ("rejected", f"serialisation `{d['form']}` of a graph is not accepted: {di['outcome'][:150]}")
+                elif di["verdicts"] != base["verdicts"]:
+                    desc = ("verdict", f"serialisation `{d['form']}` gives different results than the flat document for the same graph")
+                elif di["index"] != base["index"]:
+                    desc = ("index", f"serialisation `{d['form']}` normalises to a different index than the flat document for the same graph")
+                elif not dm.get("skipped"):
+                    frag += 1
+                    if dm.get("outcome") != "ok":
+                        desc = ("model-outside-fragment", f"normalisation model rejects a `{d['form']}` document of the fragment: {dm.get('outcome')}")
+                    elif dm["index"] != di["index"]:
+                        desc = ("model-vs-real", f"normalisation model and real Index(Normalize(.)) differ on a `{d['form']}` document")
+                    elif not dm["equivCanon"] or dm["index"] != m["canon"]:
+                        desc = ("model-self", "norm(ser g c) is not the canonical index of the graph (norm_ser contradicted?)")
+                if desc:
+                    bad += 1
+                    ctx.violation("C05:" + desc[0] + ":" + d["form"], desc[1], {"graph": case["graph"], "doc": d, "flat": case["docs"][0], "impl": di, "impl_flat": base, "model": dm, "profiles": case["profiles"]})
+        ctx.coverage.setdefault("streams", {})["c05"] = {"graphs": len(lines), "documents": ndocs, "in_model_fragment": frag, "forms": forms}
+        ctx.coverage["evaluations"] = ndocs
+        ctx.coverage["distinct_nontrivial"] = ndocs - len(lines)
+        c0 = json.loads(lines[0])
+        ctx.samples.append({"stream": "c05", "docs": [{"form": d["form"], "text": d["text"][:300]} for d in c0["docs"][:3]]})
+        ctx.oblige("correspondence:real Index(Normalize(doc)) = norm model = canonical index of the graph, on flat / embedded / split / @graph / single-object serialisations; metamorphic verdict equality incl. @context/@base documents", bad == 0)
+    except Broken as b:
+        broken.append(b)
+    ctx.coverage["rule"] = ("random graphs (2..7 nodes, links incl. cycles and dangling refs, literals) each serialised 5 ways: flat, permuted with {@value}/bare/repeated values and string-or-array @type, embedded to depth 4 with nodes split across occurrences (twice), "
+                            "and with an @context (prefix-compacted IRIs, @base-relative ids); top-level array / @graph / single object; whitespace; 2 random profiles per graph. Checked: index equality with the flat form, verdict equality, and for context-free documents equality with the Lean norm model and the graph's canonical index")
+    ctx.assumptions += ["json-gold outside the modelled fragment (@context/@base handling, @list, language maps, @reverse, blank nodes, remote contexts) is not modelled: @context documents are covered by the metamorphic comparison only; the rest is not claimed"]
+    return conclude(ctx, broken, trusted=TRUST_COMMON)
+
+
+# ------------------------------------------------------------------ C15
+
+C15_THEOREMS = ["Acv.C15.expand_rename", "Acv.C15.expand_total_on_grammar", "Acv.C15.expand_reserved",
+                "Acv.C01.and_operand_order", "Acv.C01.or_operand_order", "Acv.C01.spelling_independent",
+                "Acv.C03.severity_is_level", "Acv.C06.insertAll_perm", "Acv.C07.var_names_distinct"]
+
+
+def cmp_c15(case, i, m):
+    if "error" in m:
+        return ("model-error", "model driver rejected the case: " + m["error"])
+    for k, what in (("a", "canonical spelling"), ("b", "reordered/restyled spelling"), ("c", "spelling with renamed and mixed prefixes")):
+        if i[k].get("outcome") == "timeout":
+            return False
+        if i[k].get("outcome") != "ok":
+            return ("rewrite-rejected:" + k, f"{what} of the profile: {i[k].get('outcome')}: {str(i[k].get('err'))[:200]}")
+    for k, what in (("b", "reordering keys/operands/level lists, YAML style, comments"), ("c", "renaming the prefix / using several prefixes for one namespace")):
+        if i[k]["results"] != i["a"]["results"] or i[k]["conforms"] != i["a"]["conforms"]:
+            only_a = sorted(set(i["a"]["results"]) - set(i[k]["results"]))[:3]
+            only_k = sorted(set(i[k]["results"]) - set(i["a"]["results"]))[:3]
+            return ("rewrite-changes-verdict:" + k, f"{what} changed the results: only before {only_a}, only after {only_k}")
+    if i["a"]["pairs"] != m["implReported"]:
+        return ("correspondence", "real verdicts differ from the translator model")
+    if case["stream"] == "graphcount" and i["a"]["pairs"] != m["reported"]:
+        return ("verdict", "real verdicts differ from 'target and not formula'")
+    return None
+
+
+def check_C15(ctx):
+    broken = []
+    try:
+        build_harness()
+        run_extract()
+    except Broken as b:
+        return conclude(ctx, [b])
+    broken += prove(ctx, "Acv.Props.C15", C15_THEOREMS)
+    try:
+        corr(ctx, "c15", 150 if ctx.quick() else 4000, cmp_c15)
+        ctx.oblige("correspondence:meaning-preserving rewrites of the YAML text give the same results (and the model's)", not ctx.violations)
+    except Broken as b:
+        broken.append(b)
+    ctx.coverage["rule"] = ("random profiles of the full declarative language; spelling A canonical; spelling B: every mapping (top level, prefixes, validations, propertyConstraints, constraint keys, if/then/else, count/validation), "
+                            "level list and and/or operand list shuffled, conjunctions merged into one propertyConstraints map, block/flow style, plain/single/double quoting, comments, blank lines, indentation 2 or 4; "
+                            "spelling C: additionally every compact IRI uses one of three prefixes (incl. `_` and `-`) bound to the same namespace; all on the same graph")
+    ctx.assumptions += ["yaml.v3 maps the style variants to the same node tree (kind, tag, value): dependency, observed only"]
+    return conclude(ctx, broken, trusted=TRUST_COMMON)
